@@ -395,7 +395,12 @@ func (f *file) Stat() (hackpadfs.FileInfo, error) {
 	if f.closed {
 		return nil, f.closedErr("stat")
 	}
-	_ = f.Size() // report the current size, not the size at fetch time
+	if f.Mode().IsRegular() {
+		// report the current size, not the size at fetch time
+		if _, err := f.Data(); err != nil {
+			return nil, &hackpadfs.PathError{Op: "stat", Path: f.path, Err: err}
+		}
+	}
 	return fileInfo{Record: &f.runOnceFileRecord, Path: f.path}, nil
 }
 
